@@ -10,9 +10,128 @@ import (
 	"strings"
 )
 
+// ---- symbolic reading of getShard: what the shard index and the map key ARE, as terms over id, addr and shardNo ----
+// Concat(a,b) | BE16(x) | FNV1_32(x) | Mod(a,b) | Hex(x) | m[i] | ?<source> (anything not understood)
+type symEnv map[string]string
+
+func (env symEnv) funcDecl(f *ast.File, name string) *ast.FuncDecl {
+	for _, d := range f.Decls {
+		if fd, ok := d.(*ast.FuncDecl); ok && fd.Body != nil && fd.Name.Name == name && name != "getShard" {
+			return fd
+		}
+	}
+	return nil
+}
+
+func symEval(f *ast.File, env symEnv, e ast.Expr, depth int) string {
+	switch x := e.(type) {
+	case *ast.ParenExpr:
+		return symEval(f, env, x.X, depth)
+	case *ast.Ident:
+		if v, ok := env[x.Name]; ok {
+			return v
+		}
+		return x.Name
+	case *ast.BinaryExpr:
+		if x.Op.String() == "%" {
+			return "Mod(" + symEval(f, env, x.X, depth) + "," + symEval(f, env, x.Y, depth) + ")"
+		}
+	case *ast.IndexExpr:
+		return symEval(f, env, x.X, depth) + "[" + symEval(f, env, x.Index, depth) + "]"
+	case *ast.CallExpr:
+		fn := squash(exprString(x.Fun))
+		switch {
+		case (fn == "uint" || fn == "int" || fn == "uint64") && len(x.Args) == 1:
+			return symEval(f, env, x.Args[0], depth) // widening conversions of a 32-bit sum / of shardNo
+		case fn == "make" && len(x.Args) == 2 && squash(exprString(x.Args[0])) == "[]byte" && squash(exprString(x.Args[1])) == "2":
+			return "Zero2"
+		case fn == "fnv.New32" && len(x.Args) == 0:
+			return "FNV1_32()"
+		case fn == "hex.EncodeToString" && len(x.Args) == 1:
+			return "Hex(" + symEval(f, env, x.Args[0], depth) + ")"
+		case fn == "append" && len(x.Args) == 2 && x.Ellipsis.IsValid():
+			return "Concat(" + symEval(f, env, x.Args[0], depth) + "," + symEval(f, env, x.Args[1], depth) + ")"
+		case fn == "append" && len(x.Args) == 3 && !x.Ellipsis.IsValid():
+			// append(a, byte(v>>8), byte(v)): the two octets of v, high one first
+			hi, lo := strings.ReplaceAll(squash(exprString(x.Args[1])), " ", ""), strings.ReplaceAll(squash(exprString(x.Args[2])), " ", "")
+			if strings.HasPrefix(lo, "byte(") && hi == "byte("+lo[5:len(lo)-1]+">>8)" {
+				return "Concat(" + symEval(f, env, x.Args[0], depth) + ",BE16(" + lo[5:len(lo)-1] + "))"
+			}
+		}
+		if se, ok := x.Fun.(*ast.SelectorExpr); ok && se.Sel.Name == "Sum32" && len(x.Args) == 0 {
+			return symEval(f, env, se.X, depth)
+		}
+		// a helper of the same file: its return value with the parameters bound
+		if id, ok := x.Fun.(*ast.Ident); ok && depth < 3 {
+			if fd := env.funcDecl(f, id.Name); fd != nil && fd.Recv == nil && fd.Type.Params != nil {
+				env2 := symEnv{}
+				i := 0
+				for _, fl := range fd.Type.Params.List {
+					for _, n := range fl.Names {
+						if i < len(x.Args) {
+							env2[n.Name] = symEval(f, env, x.Args[i], depth)
+						}
+						i++
+					}
+				}
+				if r := symBody(f, env2, fd.Body.List, depth+1); len(r) == 1 {
+					return r[0]
+				}
+			}
+		}
+	}
+	return "?" + squash(exprString(e))
+}
+
+// symBody runs the statements and returns the terms of the return statement
+func symBody(f *ast.File, env symEnv, list []ast.Stmt, depth int) []string {
+	for _, st := range list {
+		switch x := st.(type) {
+		case *ast.AssignStmt:
+			if len(x.Lhs) == 1 && len(x.Rhs) == 1 {
+				if id, ok := x.Lhs[0].(*ast.Ident); ok {
+					env[id.Name] = symEval(f, env, x.Rhs[0], depth)
+					continue
+				}
+			}
+			return []string{"?" + squash(exprString(st))}
+		case *ast.ExprStmt:
+			c, ok := x.X.(*ast.CallExpr)
+			if !ok {
+				return []string{"?" + squash(exprString(st))}
+			}
+			fn := squash(exprString(c.Fun))
+			if fn == "binary.BigEndian.PutUint16" && len(c.Args) == 2 {
+				if id, ok := c.Args[0].(*ast.Ident); ok && env[id.Name] == "Zero2" {
+					env[id.Name] = "BE16(" + symEval(f, env, c.Args[1], depth) + ")"
+					continue
+				}
+			}
+			if se, ok := c.Fun.(*ast.SelectorExpr); ok && se.Sel.Name == "Write" && len(c.Args) == 1 {
+				if id, ok := se.X.(*ast.Ident); ok && env[id.Name] == "FNV1_32()" {
+					env[id.Name] = "FNV1_32(" + symEval(f, env, c.Args[0], depth) + ")"
+					continue
+				}
+			}
+			return []string{"?" + squash(exprString(st))}
+		case *ast.ReturnStmt:
+			var out []string
+			for _, r := range x.Results {
+				out = append(out, symEval(f, env, r, depth))
+			}
+			return out
+		case *ast.DeclStmt, *ast.EmptyStmt:
+			continue
+		default:
+			return []string{"?" + squash(exprString(st))}
+		}
+	}
+	return nil
+}
+
 func genCacheKey() {
 	files := []struct{ name, file string }{{"ipfix", "ipfix/memcache.go"}, {"nf9", "netflow/v9/memcache.go"}}
-	var rows []string
+	var rows, semRows []string
 	for _, pf := range files {
 		_, f := parseFile(pf.file)
 		var stmts []string
@@ -35,11 +154,25 @@ func genCacheKey() {
 			q = append(q, coqStr(s))
 		}
 		rows = append(rows, fmt.Sprintf("(%s, [%s])", coqStr(pf.name), strings.Join(q, ";\n     ")))
+		// ... and what those statements compute
+		var sem []string
+		for _, d := range f.Decls {
+			if fd, ok := d.(*ast.FuncDecl); ok && fd.Name.Name == "getShard" && fd.Body != nil {
+				sem = symBody(f, symEnv{}, fd.Body.List, 0)
+			}
+		}
+		var sq []string
+		for _, t := range sem {
+			sq = append(sq, coqStr(t))
+		}
+		semRows = append(semRows, fmt.Sprintf("(%s, [%s])", coqStr(pf.name), strings.Join(sq, "; ")))
 	}
 	var b strings.Builder
 	b.WriteString(header("MemCache.getShard of ipfix/memcache.go and netflow/v9/memcache.go"))
 	b.WriteString("(* cache, the signature and the statements of getShard *)\n")
 	b.WriteString("Definition get_shard_src : list (string * list string) :=\n  [" + strings.Join(rows, ";\n   ") + "].\n")
+	b.WriteString("\n(* cache, what getShard returns, read symbolically: the shard and the map key as terms over id, addr, shardNo *)\n")
+	b.WriteString("Definition get_shard_sem : list (string * list string) :=\n  [" + strings.Join(semRows, ";\n   ") + "].\n")
 	writeIfChanged("CacheKey.v", b.String())
 }
 
